@@ -773,7 +773,7 @@ def check_C29(res):
 def check_C30(res):
     q = res.tier == "quick"
     for cfg in ["MCF_a", "MCF_b", "MCF_c"]:
-        run_mc(res, f"MC_Framing/{cfg}", "MCF.tla", cfg + ".cfg", workers=2, must_cover=(cfg != "MCF_b"))   # in MCF_b the server closes before EOF
+        run_mc(res, f"MC_Framing/{cfg}", "MCF.tla", cfg + ".cfg", workers=2, must_cover=(cfg == "MCF_a"))   # in MCF_b and MCF_c the server closes before EOF
     run_mc(res, "MC_Framing/mutant (leftover not moved to the front)", "MCF.tla", "MCF_mutant.cfg", workers=2, expect_violation="any")
     trace_stage(res, ["io", res.seed, 25 if q else 1500], "TraceIo", "io", ["C30"], session_start=None)
     res.assumptions += ["requests are sent well within the 5 s read timeout of the providers",
